@@ -32,7 +32,7 @@ def file_lines(d, shape, n):
                 items.append(("Name", ["q"]))
         elif shape == "escapes":
             if G.escapes(d):
-                vals = ["a;b", "c=d,e", "100%", "x&y\tz", "bell\x07only", "d\x7fe"]       # the last two: a control character and nothing else to escape
+                vals = ["a;b", "c=d,e", "100%", "x&y\tz", "bell\x07only", "d\x7fe", "two words"]       # the last two: a control character and nothing else to escape
             else:
                 vals = ["a%3Bb", "c%3Dd", "100%25", "x y"]
             items = [("ID", [fid]), ("tag", [vals[i % 4], vals[(i + 1) % 4]]), ("Name", [vals[(i + 2) % len(vals)]])]
